@@ -450,4 +450,6 @@ func genDML(t *rapid.T, g *gstate, def *dbh.TableDef, o GenOpts) *dbh.Stmt {
 	}
 }
 
+func removeAll(dir string) { os.RemoveAll(dir) }
+
 var _ = strings.Repeat
